@@ -17,6 +17,10 @@ pub(crate) enum BindingsFacade {
 
     #[cfg(test)]
     Mock(Arc<MockBindings>),
+
+    /// Caller-supplied bindings for out-of-tree verification harnesses.
+    #[cfg(folo_verif)]
+    Verif(std::sync::Arc<dyn Bindings>),
 }
 
 impl BindingsFacade {
@@ -28,6 +32,11 @@ impl BindingsFacade {
     pub(crate) fn from_mock(mock: MockBindings) -> Self {
         Self::Mock(Arc::new(mock))
     }
+
+    #[cfg(folo_verif)]
+    pub(crate) fn from_verif(bindings: std::sync::Arc<dyn Bindings>) -> Self {
+        Self::Verif(bindings)
+    }
 }
 
 impl Bindings for BindingsFacade {
@@ -36,6 +45,8 @@ impl Bindings for BindingsFacade {
             Self::Target(bindings) => bindings.sched_setaffinity_current(mask),
             #[cfg(test)]
             Self::Mock(mock) => mock.sched_setaffinity_current(mask),
+            #[cfg(folo_verif)]
+            Self::Verif(inner) => inner.sched_setaffinity_current(mask),
         }
     }
 
@@ -44,6 +55,8 @@ impl Bindings for BindingsFacade {
             Self::Target(bindings) => bindings.sched_getcpu(),
             #[cfg(test)]
             Self::Mock(mock) => mock.sched_getcpu(),
+            #[cfg(folo_verif)]
+            Self::Verif(inner) => inner.sched_getcpu(),
         }
     }
 
@@ -52,6 +65,8 @@ impl Bindings for BindingsFacade {
             Self::Target(bindings) => bindings.sched_getaffinity_current(words),
             #[cfg(test)]
             Self::Mock(mock) => mock.sched_getaffinity_current(words),
+            #[cfg(folo_verif)]
+            Self::Verif(inner) => inner.sched_getaffinity_current(words),
         }
     }
 }
@@ -63,6 +78,8 @@ impl Debug for BindingsFacade {
             Self::Target(inner) => inner.fmt(f),
             #[cfg(test)]
             Self::Mock(inner) => inner.fmt(f),
+            #[cfg(folo_verif)]
+            Self::Verif(inner) => inner.fmt(f),
         }
     }
 }
